@@ -160,6 +160,7 @@ func (e *Exec) initClosed(st *Store, coll *CollV, n int) {
 		alts[0] = True
 	}
 	m := e.decide(alts)
+	e.assertPC(Eq(tag, IntI(int64(m))))
 	for i := 0; i < m; i++ {
 		name := fmt.Sprintf("st.%s[%d]", coll.Name, i)
 		var kv Value
